@@ -1,11 +1,12 @@
 import Ftp.Spec.Session
 import Ftp.Props.C05
+import Ftp.Lemmas.ClientData
 /-
   C04 - binary upload transmits exactly the source bytes, then signals end-of-file, then waits for the completion reply.
   Model: `Ftp.Client.dataSend` (data_connection::send), `Ftp.Client.finishTransfer`, `dataDisconnect`.
 -/
 namespace Ftp.Props.C04
-open Ftp Ftp.Client Ftp.Session
+open Ftp Ftp.Client Ftp.Session Ftp.Client.DataL
 
 /-- binary upload: for every payload and every pattern of short reads of the source, the bytes written to the data
     connection are exactly the source bytes up to its first empty read -/
@@ -13,24 +14,27 @@ theorem binary_transmits_exactly (w : World) (hok : ∀ b ∈ w.blockOks, b = tr
     result (dataSend false .binary) w = .ok () ∧
     (after (dataSend false .binary) w).peerGot = w.peerGot ++ w.src.data ∧
     (after (dataSend false .binary) w).src.data = [] := by
-  sorry
+  exact dataSend_binary_exact w hok hsrc
 
 /-- ... independent of how the source chops its reads -/
 theorem binary_chop_independent (w : World) (s1 s2 : List Nat) (hok : ∀ b ∈ w.blockOks, b = true) (hsrc : w.srcFailAt = none) :
     (after (dataSend false .binary) { w with src := ⟨w.src.data, s1⟩ }).peerGot =
     (after (dataSend false .binary) { w with src := ⟨w.src.data, s2⟩ }).peerGot := by
-  sorry
+  rw [(binary_transmits_exactly { w with src := ⟨w.src.data, s1⟩ } hok hsrc).2.1,
+    (binary_transmits_exactly { w with src := ⟨w.src.data, s2⟩ } hok hsrc).2.1]
 
 /-- every block handed to the data socket holds at most 8192 bytes -/
 theorem blocks_at_most_8192 (w : World) (t : TType) (cb : Bool) :
     ∀ e ∈ added (dataSend cb t) w, ∀ d n, e = Ev.dataWrite d n → n ≤ 8192 := by
-  sorry
+  obtain ⟨l, h1, h2, _⟩ := dataSend_general cb t w
+  rw [added_of_trace _ _ _ h1]
+  exact h2
 
 /-- ASCII upload end to end: the bytes written are the source with CR LF | CR | LF -> CR LF (C05) -/
 theorem ascii_transmits_converted (w : World) (hok : ∀ b ∈ w.blockOks, b = true) (hsrc : w.srcFailAt = none) :
     result (dataSend false .ascii) w = .ok () ∧
     (after (dataSend false .ascii) w).peerGot = w.peerGot ++ Spec.ulSpec w.src.data := by
-  sorry
+  exact dataSend_ascii_exact w hok hsrc
 
 /-- after the last byte the data connection is closed (shutdown, then close: the server sees end-of-file) and only
     afterwards the completion reply is awaited: the events of the end of an uncancelled transfer start with the
@@ -39,12 +43,15 @@ theorem close_before_completion (w : World) (rs : Replies) (d : Nat) (a : Option
     (hc : w.conn = some { sock := some d, acc := a }) (hcl : ∀ b ∈ w.closeFails, b = false) :
     ∃ rest, added (finishTransfer false rs) w =
       [Ev.dataShutdown d, Ev.dataClose d] ++ (match a with | some l => [Ev.dataClose l] | none => []) ++ Ev.ctlReadLine :: rest := by
-  sorry
+  obtain ⟨rest, h⟩ := finishTransfer_close_first w rs d a hc hcl
+  refine ⟨rest, ?_⟩
+  rw [h]
+  cases a <;> rfl
 
 /-- a failed write is reported: the call throws -/
 theorem write_error_is_reported (w : World) (t : TType) (hne : w.src.data ≠ []) (hb : w.blockOks.head? = some false)
     (hsrc : w.srcFailAt = none) : result (dataSend false t) w = .throw := by
-  sorry
+  exact dataSend_write_error w t hne hb hsrc
 
 example :
     let w : World := { mode := .passive, ttype := .binary, rfc := true, src := ⟨str "hello world", [2, 3, 1]⟩,
